@@ -334,6 +334,23 @@ func (c05) Exec(seed int64, i int, tier string) Record {
 		return rec
 	}
 
+	// the caller updates a document it passed before IN PLACE (same map / slice object, new content)
+	// and calls the reused function again: the answer must be the fresh answer for the new content.
+	if r.Chance(45) {
+		target := docs[0]
+		variant := c05Mutate(r, doc0, []int{25, 60, 100}[r.Intn(3)])
+		if c05OverwriteInPlace(target, variant) {
+			want := c05Canon(Run(text, DeepCopy(variant), &fresh))
+			got := c05Canon(SafeCall(f, target))
+			rec.Tags = append(rec.Tags, "inplace-update")
+			if got != want {
+				rec.Viol = fmt.Sprintf("after the document object of call 0 was updated in place to %s the reused function answers %s, a fresh Retrieve %s", clip(JSONText(variant), 300), clip(got, 300), clip(want, 300))
+				rec.Class = "history-inplace"
+				return rec
+			}
+		}
+	}
+
 	// evidence
 	trans := map[string]bool{}
 	flips := 0
@@ -375,4 +392,33 @@ func (c05) Exec(seed int64, i int, tier string) Record {
 		rec.Key = shapeKey(p) + "/" + sig + fmt.Sprint(acc)
 	}
 	return rec
+}
+
+// c05OverwriteInPlace gives `target` (a map or slice object) the content of `src` without replacing
+// the object itself (slices: only when the lengths agree). Reports whether it could.
+func c05OverwriteInPlace(target, src interface{}) bool {
+	switch t := target.(type) {
+	case map[string]interface{}:
+		sm, ok := src.(map[string]interface{})
+		if !ok {
+			return false
+		}
+		for k := range t {
+			delete(t, k)
+		}
+		for k, v := range sm {
+			t[k] = DeepCopy(v)
+		}
+		return true
+	case []interface{}:
+		ss, ok := src.([]interface{})
+		if !ok || len(ss) != len(t) {
+			return false
+		}
+		for i := range ss {
+			t[i] = DeepCopy(ss[i])
+		}
+		return true
+	}
+	return false
 }
